@@ -280,7 +280,35 @@ namespace {
          noise();
          auto kind = t.at(0).as_str();
          if (kind == "expr") return *located(lex.make_expr_stmt(*lex.make_literal(lex.int_type(), u8"1")));
-         if (kind == "decl") return *located(region.declare_var(name(), lex.int_type()));
+         if (kind == "decl") {
+            // variables of varied types, so that the type productions (and the order in which products and sums list their
+            // members) are part of every program
+            auto& nm = name();
+            const ipr::Type* t = &lex.int_type();
+            switch (counter % 4) {
+            case 1: {
+               auto& pi = lex.get_pointer(lex.int_type());
+               auto& pc = lex.get_pointer(lex.char_type());
+               impl::Warehouse<ipr::Type> ps, es;
+               ps.push_back(lex.int_type()); ps.push_back(pc);
+               es.push_back(pc); es.push_back(pi);                        // listed against creation order
+               t = &lex.get_function(lex.get_product(ps), lex.void_type(), lex.get_sum(es));
+               break;
+            }
+            case 2:
+               t = &lex.get_array(lex.get_qualified(static_cast<const ipr::Lexicon&>(lex).const_qualifier()
+                                                    | static_cast<const ipr::Lexicon&>(lex).volatile_qualifier(), lex.int_type()),
+                                  *lex.make_literal(lex.int_type(), u8"4"));
+               break;
+            case 3: {
+               impl::Warehouse<ipr::Type> none;
+               t = &lex.get_reference(lex.get_function(lex.get_product(none), lex.int_type()));
+               break;
+            }
+            default: break;
+            }
+            return *located(region.declare_var(nm, *t));
+         }
          if (kind == "class") {
             // a class definition with a base, members (one with specifiers, one bit-field) as a declaration statement
             auto c = lex.make_class(region);
